@@ -3,6 +3,7 @@ package sim
 import (
 	"bytes"
 	"fmt"
+	"sort"
 	"time"
 
 	abci "github.com/cometbft/cometbft/abci/types"
@@ -603,7 +604,15 @@ func (e *Executor) Step(p *HeightPlan) error {
 		}
 	}
 	for _, o := range e.Oracles {
-		e.report(o.AfterBlock(c, bc)...)
+		vs := o.AfterBlock(c, bc)
+		// oracles walk Go maps: fix the order of what one oracle reports for one block
+		sort.SliceStable(vs, func(i, j int) bool {
+			if a, b := vs[i].Signature(), vs[j].Signature(); a != b {
+				return a < b
+			}
+			return vs[i].Msg < vs[j].Msg
+		})
+		e.report(vs...)
 	}
 	return nil
 }
